@@ -397,6 +397,18 @@ impl World {
         let f1 = Fx::pool_only(&now_w1, &a1, &b1, 0, Bank::new(self.now as i64));
         let mut f2 = Fx::pool_only(&now_w2, &a2, &b2, 1, f1.bank.clone());
         add_token_side(&mut f2.bank, &[m_in, m_mid, m_out], funds);
+        // trade-enable mode (C17 / C14): bit 1 = pool one's, bit 2 = pool two's Oracle says trading starts in the future
+        // (adaptive-fee pools only: a static-fee pool has no Oracle account)
+        let te: u8 = t.get(17).and_then(|x| x.parse().ok()).unwrap_or(0);
+        for (bit, oracle) in [(1u8, f1.oracle), (2u8, f2.oracle)] {
+            if te & bit != 0 {
+                if let Some(a) = f2.bank.accts.get_mut(&oracle) {
+                    if a.owner == ::whirlpool::ID && a.data.len() >= 48 {
+                        a.data[40..48].copy_from_slice(&(self.now + 1000).to_le_bytes());
+                    }
+                }
+            }
+        }
         let bank0 = f2.bank.clone();
         let mut f1 = f1;
         f1.bank = bank0.clone();
